@@ -6,6 +6,8 @@ package grocksdb
 // WriteOptions represent all of the available options when writing to a
 // database.
 type WriteOptions struct {
+	sync       bool
+	disableWAL bool
 }
 
 // NewDefaultWriteOptions creates a default WriteOptions object.
@@ -19,11 +21,12 @@ func NewDefaultWriteOptions() *WriteOptions {
 //
 // Default: false
 func (opts *WriteOptions) SetSync(value bool) {
+	opts.sync = value
 }
 
 // IsSync returns if sync mode is turned on.
 func (opts *WriteOptions) IsSync() bool {
-	return false
+	return opts.sync
 }
 
 // DisableWAL sets whether WAL should be active or not.
@@ -32,11 +35,12 @@ func (opts *WriteOptions) IsSync() bool {
 //
 // Default: false
 func (opts *WriteOptions) DisableWAL(value bool) {
+	opts.disableWAL = value
 }
 
 // IsDisableWAL returns if we turned on DisableWAL flag for writing.
 func (opts *WriteOptions) IsDisableWAL() bool {
-	return false
+	return opts.disableWAL
 }
 
 // SetIgnoreMissingColumnFamilies if true and if user is trying to write
